@@ -41,6 +41,7 @@ class DBusMessage :
     # Set prior to marshal or during/after unmarshalling
     expectReply = True
     autoStart = True
+    otherFlags = 0  # flag bits of a parsed message other than 0x1 and 0x2
     signature = None
     body = None
 
@@ -81,7 +82,9 @@ class DBusMessage :
                         body instead of encoding C{self.body}. Used when a
                         received message is forwarded.
         """
-        flags = 0
+        # bits this class has no attribute for (0x4 ALLOW_INTERACTIVE_AUTHORIZATION,
+        # future ones) are kept as they were received
+        flags = self.otherFlags & ~0x3
 
         if not self.expectReply:
             flags |= 0x1
@@ -407,6 +410,7 @@ def parseMessage(rawMessage, oobFDs):
 
     m.expectReply = not (flags & 0x1)
     m.autoStart = not (flags & 0x2)
+    m.otherFlags = flags & ~0x3
 
     for code, v in hval[6]:
         try:
